@@ -96,9 +96,8 @@ func (L *Loaded) Package(path string) *ssa.Package { return L.byPath[path] }
 
 // ensureBuilt builds the function's package lazily.
 func (L *Loaded) ensureBuilt(fn *ssa.Function) {
-	if fn.Blocks != nil {
-		return
-	}
+	// No "Blocks != nil" shortcut: another worker may be in the middle of building the package, in which case
+	// Blocks is already set but incomplete; Package.Build blocks (sync.Once) until the build has finished.
 	if fn.Pkg != nil {
 		fn.Pkg.Build()
 		return
